@@ -7,6 +7,9 @@ AllClasses == {"unterminatedQuote", "strayOperator", "hugeNumber", "negative", "
                \* values that are hostile to one particular consumer: range parser, character parser, property lookup, int <-> str
                \* conversion, regular expression compiler, tokenizer, codec lookup, date layout translation
                "openRanges", "stringPrefix", "beyondUnicode", "internalName", "hugeDigits", "hugeRepetition", "indentedLines",
-               "codecName", "repeatedPlaceholder"}
+               "codecName", "repeatedPlaceholder",
+               \* second batch (bug hunts): the tokenizer's own failures, exponents beyond C integers, deep nesting, line
+               \* continuations, names of builtins where field names are expected
+               "tokenizerBytes", "hugeExponent", "deepNesting", "lineContinuation", "builtinName"}
 FewClasses == {"unterminatedQuote", "hugeNumber", "nan", "commaOnly", "badRegex", "nul", "strayOperator", "nonAscii"}
 =============================================================================
